@@ -20,12 +20,14 @@
 (*   srk_table_ahab: SHA-256 over the SRK table (tag D7, version 42) of exactly four SRK records      *)
 (*   srk_table_ahab_v2: SHA-512 over the SRK table (version 43) whose records carry the hash         *)
 (*                  (by curve, zero padded to 64 bytes) of the SRK data block of that key             *)
-EXTENDS Sym, FiniteSets, TLC
-CONSTANT SigCache,     \* FALSE = the property (a signature always covers what is exported).  TRUE = I-spec of the code
+EXTENDS Sym, FiniteSets, TLC, Json, IOUtils
+CONSTANT SigCache      \* FALSE = the property (a signature always covers what is exported).  TRUE = I-spec of the code
                        \* as built ("sign only if there is no signature yet"), used by RotMC_asbuilt.cfg to PREDICT.
-         Devices       \* the silicon: sequence of [fam, revs, rots, latest, pfr, dc] - the revisions of a family (revs[j]) and the
-                       \* RoT type each of them HAS (rots[j]; frozen table anchors/C03/rot_types_rev.json), the revision the name
-                       \* "latest" stands for, and whether the family has a CMPA page / a debug-credential path
+\* the silicon: sequence of [fam, revs, rots, latest, pfr, dc] - the revisions of a family (revs[j]) and the RoT type each of them HAS
+\* (rots[j]; frozen table anchors/C03/rot_types_rev.json), the revision the name "latest" stands for, and whether the family has a CMPA
+\* page / a debug-credential path.  GEN and TV read the table of the run, MC the small world RotMC_devices.ndjson.  (A definition, not
+\* a CONSTANT: TLC evaluates a definition once, a substituted constant at every use.)
+Devices == ndJsonDeserialize(IOEnv.C03_DEVICES)
 VARIABLES fs,          \* key files: slot -> [has, k, enc]
           obj,         \* the certificate-block object under test
           out,         \* the last exported block (snapshot of obj at export time)
